@@ -260,3 +260,15 @@ pub proof fn lemma_C18_query_order(c: Seq<char>, line: u32)
             }
         }),
 {}
+
+// ---- (g) the test-only helper is_inside_function ---------------------------------------------------------------
+/// STATED, NOT HIDDEN: is_inside_function / find_enclosing_function (dead code outside the test-suite) reports the
+/// REGULAR parameters only -- the middle segment of what the completion context declares; the two agree exactly on
+/// signatures without positional-only and keyword-only parameters
+//@tags C18
+pub proof fn lemma_C18_is_inside_function_regular_only(a: CArguments)
+    ensures
+        regular_names(a) =~= declared_names(a).subrange(a.posonlyargs@.len() as int, (a.posonlyargs@.len() + a.args@.len()) as int),
+        a.posonlyargs@.len() == 0 && a.kwonlyargs@.len() == 0 ==> regular_names(a) =~= declared_names(a),
+        regular_names(a).len() == a.args@.len(),
+{}
